@@ -58,6 +58,22 @@ func MatchFilter(f *mocrelay.ReqFilter, ev *mocrelay.Event) bool {
 	return true
 }
 
+// MatchFilterValueless is MatchFilter under the other reading of a tag that has a name but no
+// value element (["t"]): it counts as carrying the empty string as its value. The statements do
+// not decide between the two readings; a check that meets a pair on which they differ treats it as
+// an unclaimed zone and demands only that the code is consistent with itself there.
+func MatchFilterValueless(f *mocrelay.ReqFilter, ev *mocrelay.Event) bool {
+	padded := *ev
+	padded.Tags = make([]mocrelay.Tag, len(ev.Tags))
+	for i, t := range ev.Tags {
+		if len(t) == 1 {
+			t = mocrelay.Tag{t[0], ""}
+		}
+		padded.Tags[i] = t
+	}
+	return MatchFilter(f, &padded)
+}
+
 // MatchFilters: a filter list matches when any member matches.
 func MatchFilters(fs []*mocrelay.ReqFilter, ev *mocrelay.Event) bool {
 	for _, f := range fs {
